@@ -394,19 +394,28 @@ def rule_sign(run):
             if p < len(tn) and tn[p] is not None:
                 flag = tn[p]
                 sgnvar = None
+                def is_sign(v):
+                    # `-1. if flag else 1.` (the selector [1., -1.][flag] arrives in this form: N11)
+                    if isinstance(v, ast.IfExp) and isinstance(v.test, ast.Name) and v.test.id == flag:
+                        try: return [ast.literal_eval(v.orelse), ast.literal_eval(v.body)] == [1.0, -1.0]
+                        except Exception: return False
+                    return False
                 for s_ in ast.walk(n):
-                    if isinstance(s_, ast.Assign) and isinstance(s_.targets[0], ast.Name) and \
-                       isinstance(s_.value, ast.Subscript) and isinstance(s_.value.value, ast.List) and \
-                       isinstance(s_.value.slice, ast.Name) and s_.value.slice.id == flag:
-                        try: vals = [ast.literal_eval(e) for e in s_.value.value.elts]
-                        except Exception: vals = None
-                        if vals == [1.0, -1.0]: sgnvar = s_.targets[0].id
+                    if isinstance(s_, ast.Assign) and isinstance(s_.targets[0], ast.Name) and is_sign(s_.value):
+                        sgnvar = s_.targets[0].id
                 for s_ in ast.walk(n):
                     if isinstance(s_, ast.Call) and call_name(s_) == 'append' and s_.args and sgnvar:
                         a_ = s_.args[0]
                         if isinstance(a_, ast.BinOp) and isinstance(a_.op, ast.Mult) and \
                            any(isinstance(x, ast.Name) and x.id == sgnvar for x in (a_.left, a_.right)):
                             consumed = True
+                for s_ in ast.walk(n):
+                    # sign used in place: append((-1. if flag else 1.) * value), or append(-value if flag else value)
+                    if isinstance(s_, ast.Call) and call_name(s_) == 'append' and s_.args:
+                        a_ = s_.args[0]
+                        if isinstance(a_, ast.BinOp) and isinstance(a_.op, ast.Mult) and any(is_sign(x) for x in (a_.left, a_.right)): consumed = True
+                        if isinstance(a_, ast.IfExp) and isinstance(a_.test, ast.Name) and a_.test.id == flag and isinstance(a_.body, ast.UnaryOp) and \
+                           isinstance(a_.body.op, ast.USub) and norm(a_.body.operand) == norm(a_.orelse): consumed = True
     if not seen_loop: run.unknown(key, 'loop over the chosen per-table list not found', where=hi.where())
     else:
         run.check(consumed, key, 'the value appended to the history is not multiplied by [1,-1][<reverse flag>]', where=hi.where())
@@ -487,7 +496,94 @@ def rule_selection(run):
                          'previous item\'s re-uses the line already read and returns the wrong row' % lst, where=osel.where(v))
 
 
+def _dup_policy(fn, is_target):
+    """how a scan that may meet the same row twice keeps it: 'last' (plain keyed store, overwriting), 'first' (setdefault or a
+    store guarded by a membership test), None (cannot tell).  is_target(expr) says whether expr is the keyed container."""
+    pm = parent_map(fn)
+    pol = set()
+    for n in walk_no_nested(fn):
+        if isinstance(n, ast.Assign) and len(n.targets) == 1 and isinstance(n.targets[0], ast.Subscript) and is_target(n.targets[0].value) \
+           and not isinstance(n.targets[0].slice, ast.Slice):
+            guarded, p = False, pm.get(n)
+            while p is not None and not isinstance(p, (ast.For, ast.While, ast.FunctionDef)):
+                if isinstance(p, ast.If) and any(isinstance(c, ast.Compare) and any(isinstance(o, (ast.In, ast.NotIn)) for o in c.ops) and
+                                                 any(is_target(x) for x in c.comparators) for c in ast.walk(p.test)):
+                    guarded = True
+                p = pm.get(p)
+            pol.add('first' if guarded else 'last')
+        if isinstance(n, ast.Call) and isinstance(n.func, ast.Attribute) and n.func.attr == 'setdefault' and is_target(n.func.value):
+            pol.add('first')
+    return pol.pop() if len(pol) == 1 else None
+
+
+def rule_duprow(run):
+    run.rule('DUPROW', 'a row printed more than once in a table (TOUGH2_MP prints border rows once per processor) is resolved the same '
+             'way by the line index history() seeks with and by the table reader used when stepping: both keep the last copy', floor=1)
+    prog = run.prog
+    st = prog.func('t2listing.t2listing.setup_table_TOUGH2')
+    rt = prog.func('t2listing.t2listing.read_table_TOUGH2')
+    # the row dictionary: a local bound to {} from which the per-row line numbers are later taken
+    dicts = roles.locals_where(st.node, lambda v: isinstance(v, ast.Dict) and not v.keys)
+    dicts = [d for d in dicts if any(isinstance(n, ast.Subscript) and isinstance(n.value, ast.Subscript) and isinstance(n.value.value, ast.Name)
+                                     and n.value.value.id == d and isinstance(n.ctx, ast.Load) for n in ast.walk(st.node))]
+    key = 't2listing :: duplicate rows: setup_table_TOUGH2 (line index) vs read_table_TOUGH2 (values)'
+    if len(dicts) != 1:
+        run.unknown(key, 'role "row dictionary of setup_table_TOUGH2": %s' % (dicts or 'not found'), where=st.where()); return
+    p1 = _dup_policy(st.node, lambda e: isinstance(e, ast.Name) and e.id == dicts[0])
+    tabs = roles.locals_where(rt.node, lambda v: isinstance(v, ast.Subscript) and norm(v.value) == 'self._table')
+    p2 = _dup_policy(rt.node, lambda e: (isinstance(e, ast.Name) and e.id in tabs) or
+                     (isinstance(e, ast.Subscript) and norm(e.value) == 'self._table'))
+    if p1 is None or p2 is None:
+        run.unknown(key, 'policy not recognised (line index: %s, values: %s)' % (p1, p2), where=st.where()); return
+    if p1 != p2:
+        run.violated(key, 'the line index keeps the %s copy of a repeated row, the table reader the %s copy: where the copies differ, '
+                     'history() returns a value that stepping through the results does not show' % (p1, p2), where=st.where(), robust=True)
+    else: run.ok(key, {'line_index': p1, 'values': p2}, where=st.where())
+
+
+def rule_tplusnav(run):
+    run.rule('TPLUSNAV', 'history() moves from the table it has just read to the next selected one with skip_to_table_TOUGHplus: for every '
+             'order of TOUGH+ tables in a result set, every table just read and every later target, the function - interpreted on a '
+             'model listing - stops at the target table (the numbered element tables are told apart by counting the element tables up to '
+             'and including the one just read)', floor=20)
+    from ..consteval import Interp, Obj, Raised
+    prog = run.prog
+    fi = prog.func('t2listing.t2listing.skip_to_table_TOUGHplus')
+    layouts = (['element', 'element1', 'connection', 'primary', 'element2'], ['element', 'connection', 'primary'],
+               ['element', 'element1', 'element2', 'connection'], ['element', 'connection', 'element1', 'element2', 'primary'])
+    raw = lambda t: 'element' if t.startswith('element') else t
+    for names in layouts:
+        for li in range(-1, len(names) - 1):
+            last = None if li < 0 else names[li]
+            for ti in range(li + 1, len(names)):
+                if li == ti: continue
+                target = names[ti]
+                key = 'skip_to_table_TOUGHplus :: tables %s, after %s to %s' % ('/'.join(names), last, target)
+                cursor = {'i': li}          # index of the table whose rows the reader is in (-1: before the first header)
+                me = Obj()
+                me.attrs['_tablenames'] = list(names)
+                def next_table():
+                    cursor['i'] += 1
+                    return raw(names[cursor['i']]) if cursor['i'] < len(names) else None
+                me.attrs['__methods__'] = {'skipto': lambda *a, **k: None, 'skip_to_nonblank': lambda *a, **k: None,
+                                           'next_table_TOUGHplus': next_table}
+                if last is None: cursor['i'] = 0      # the preamble positions the reader at the first (element) table
+                try:
+                    Interp({}, max_steps=20000).call_function(fi.node, [me, target, last, -1])
+                    if cursor['i'] == ti: run.ok(key, where=fi.where())
+                    else:
+                        run.violated(key, 'the function stops at table %s (position %d), not at %s' % (names[min(cursor['i'], len(names) - 1)], cursor['i'], target),
+                                     where=fi.where(), robust=True)
+                except Raised as e:
+                    run.violated(key, 'the target table is present but the function raises `%s`: the numbered element tables after the one just read '
+                                 'are given the wrong number, so the target name never matches' % e.what, where=fi.where(), robust=True)
+                except AnalysisError as e:
+                    run.unknown(key, 'left the constant-evaluation whitelist: %s' % e, where=fi.where())
+
+
 def check(run):
+    run.guarded('DUPROW', rule_duprow)
+    run.guarded('TPLUSNAV', rule_tplusnav)
     run.guarded('NONE', rule_none)
     run.guarded('LOOPEXIT', rule_loopexit)
     run.guarded('RESTORE', rule_restore)
